@@ -10,7 +10,7 @@ k-th entry of scenario.services.  None is coded as NONE_ID (-1).
 """
 import z3
 
-from pyvc.values import (SymV, Obj, PyList, PyDict, SymSeq, SymDict, SymColl, NpCell, NpArr, ClassRef, mk, ival,
+from pyvc.values import (SymV, Obj, PyList, PyDict, SymSeq, SymDict, SymColl, NpCell, NpArr, ClassRef, Opaque, mk, ival,
                          rval, bval, nameval, NONE_ID, A1, A2, intern_name)
 
 I_ = z3.IntSort()
@@ -66,6 +66,24 @@ class Sigma:
         self.ssub = Fn("ssub" + t, I_, I_)                     # sensitive address list
         self.shid = Fn("shid" + t, I_, I_)
         self.sval = Fn("sval" + t, I_, R_)
+        self.sval2 = Fn("sval_at" + t, I_, I_, R_)             # sensitive value by address
+        # exploit / escalation tables (definition order = scenario dict order); names are coded by index
+        if concrete is None:
+            self.nE = z3.Int("nE" + t)
+            self.nP = z3.Int("nP" + t)
+        else:
+            self.nE = concrete.get("n_exploits", 2)
+            self.nP = concrete.get("n_privescs", 1)
+        self.e_srv = Fn("e_srv" + t, I_, I_)
+        self.e_os = Fn("e_os" + t, I_, I_)
+        self.e_prob = Fn("e_prob" + t, I_, R_)
+        self.e_cost = Fn("e_cost" + t, I_, R_)
+        self.e_access = Fn("e_access" + t, I_, I_)
+        self.p_proc = Fn("p_proc" + t, I_, I_)
+        self.p_os = Fn("p_os" + t, I_, I_)
+        self.p_prob = Fn("p_prob" + t, I_, R_)
+        self.p_cost = Fn("p_cost" + t, I_, R_)
+        self.p_access = Fn("p_access" + t, I_, I_)
         self.step_limit_set = z3.Bool("has_step_limit" + t)
         self.step_limit = z3.Int("step_limit" + t)
         # scan costs
@@ -162,6 +180,10 @@ class Sigma:
         ax += [self.B0 >= nS, self.B1 >= 1]
         if not self.symbolic:
             subs = self.concrete["subnets"]
+            for which, f1, f2 in (("e_shape", self.e_srv, self.e_os), ("p_shape", self.p_proc, self.p_os)):
+                for e, (a_, b_) in enumerate(self.concrete.get(which) or []):
+                    ax.append(z3.And(f1(z3.IntVal(e)) == (NONE_ID if a_ is None else a_),
+                                     f2(z3.IntVal(e)) == (NONE_ID if b_ is None else b_)))
             for k, n in enumerate(subs):
                 ax.append(self.size(z3.IntVal(k)) == n)
             for i, (a_s, a_h) in enumerate(self.addrs):
@@ -190,6 +212,18 @@ class Sigma:
         # sensitive hosts are valid addresses
         ax.append(self.forall_range(self.nSens, lambda j: self.valid_addr(self.ssub(ival(j)), self.shid(ival(j))), "sj"))
         ax.append(z3.Implies(self.step_limit_set, self.step_limit > 0))
+        # exploit / escalation definitions reference defined names, probabilities in [0,1], access in {1,2}
+        if self.symbolic:
+            ax += [self.nE >= 0, self.nP >= 0]
+        opt = lambda v, n: z3.Or(v == NONE_ID, z3.And(0 <= v, v < n))
+        ax.append(self.forall_range(self.nE, lambda e: z3.And(
+            0 <= self.e_srv(ival(e)), self.e_srv(ival(e)) < self.nSrv, opt(self.e_os(ival(e)), self.nOS),
+            0 <= self.e_prob(ival(e)), self.e_prob(ival(e)) <= 1,
+            z3.Or(self.e_access(ival(e)) == 1, self.e_access(ival(e)) == 2)), "we"))
+        ax.append(self.forall_range(self.nP, lambda e: z3.And(
+            opt(self.p_proc(ival(e)), self.nProc), opt(self.p_os(ival(e)), self.nOS),
+            0 <= self.p_prob(ival(e)), self.p_prob(ival(e)) <= 1,
+            z3.Or(self.p_access(ival(e)) == 1, self.p_access(ival(e)) == 2)), "wp"))
         return ax
 
     # ------------------------------------------------------------------ python-side objects
@@ -257,6 +291,71 @@ class Sigma:
     def sensitive_seq(self):
         return SymSeq(self.nSens, lambda j: (mk(self.ssub(ival(j)), "int"), mk(self.shid(ival(j)), "int")),
                       "sensitive_addresses")
+
+    def name_seq(self, n, label):
+        return SymSeq(n, lambda k: mk(ival(k), "name"), label)
+
+    def _shape(self, which, e, col):
+        """concrete table shape (bounded mode only): concrete['e_shape'][e] = (service, os) with None for no OS"""
+        sh = (self.concrete or {}).get(which)
+        if sh is None or not isinstance(e, int):
+            return None
+        v = sh[e][col]
+        return ("none",) if v is None else v
+
+    def exploit_def(self, e):
+        sv, ov = self._shape("e_shape", e, 0), self._shape("e_shape", e, 1)
+        if sv is not None:
+            from pyvc.values import NameK
+            ee = z3.IntVal(e)
+            return PyDict({"service": NameK(sv), "os": None if ov == ("none",) else NameK(ov),
+                           "prob": mk(self.e_prob(ee), "real"), "cost": mk(self.e_cost(ee), "real"),
+                           "access": mk(self.e_access(ee), "int")}, fresh=False)
+        e = ival(e)
+        return PyDict({"service": mk(self.e_srv(e), "name"), "os": mk(self.e_os(e), "name"),
+                       "prob": mk(self.e_prob(e), "real"), "cost": mk(self.e_cost(e), "real"),
+                       "access": mk(self.e_access(e), "int")}, fresh=False)
+
+    def privesc_def(self, p):
+        sv, ov = self._shape("p_shape", p, 0), self._shape("p_shape", p, 1)
+        if sv is not None:
+            from pyvc.values import NameK
+            pp = z3.IntVal(p)
+            return PyDict({"process": NameK(sv), "os": None if ov == ("none",) else NameK(ov),
+                           "prob": mk(self.p_prob(pp), "real"), "cost": mk(self.p_cost(pp), "real"),
+                           "access": mk(self.p_access(pp), "int")}, fresh=False)
+        p = ival(p)
+        return PyDict({"process": mk(self.p_proc(p), "name"), "os": mk(self.p_os(p), "name"),
+                       "prob": mk(self.p_prob(p), "real"), "cost": mk(self.p_cost(p), "real"),
+                       "access": mk(self.p_access(p), "int")}, fresh=False)
+
+    def table_dict(self, n, deffn, label):
+        """exploits / privilege_escalation section: name e (coded e + 500000) -> definition dict"""
+        off = 500000
+        keys = SymSeq(n, lambda e: mk(ival(e) + off, "name"), label + ".keys")
+        return SymDict(lambda k: z3.And(off <= nameval(k), nameval(k) < off + n),
+                       lambda k: deffn(k.k - off if hasattr(k, "k") else nameval(k) - off), keys=keys, label=label)
+
+    def scenario_obj(self, I, with_bounds=True, limit=None):
+        """a Scenario object over this Sigma (its scenario_dict holds the symbolic containers)"""
+        sccls = I.repo.cls("nasim.scenarios.scenario.Scenario")
+        d = {"subnets": self.subnets_seq(), "topology": self.topology_seq(),
+             "os": self.name_seq(self.nOS, "scenario.os"), "services": self.name_seq(self.nSrv, "scenario.services"),
+             "processes": self.name_seq(self.nProc, "scenario.processes"),
+             "sensitive_hosts": SymDict(lambda k: self.exists_range(self.nSens, lambda j: z3.And(
+                 self.ssub(ival(j)) == ival(k[0]), self.shid(ival(j)) == ival(k[1])), "sh"),
+                 lambda k: mk(self.sval2(ival(k[0]), ival(k[1])), "real"), keys=self.sensitive_seq(), label="sensitive_hosts"),
+             "exploits": self.table_dict(self.nE, self.exploit_def, "exploits"),
+             "privilege_escalation": self.table_dict(self.nP, self.privesc_def, "privescs"),
+             "service_scan_cost": mk(self.cost_srv, "real"), "os_scan_cost": mk(self.cost_os, "real"),
+             "subnet_scan_cost": mk(self.cost_sub, "real"), "process_scan_cost": mk(self.cost_proc, "real"),
+             "firewall": self.firewall_dict(), "host": self.hosts_dict(I),
+             "step_limit": None if limit is None else mk(self.step_limit, "int")}
+        if with_bounds:
+            d["address_space_bounds"] = (mk(self.B0, "int"), mk(self.B1, "int"))
+        return Obj(sccls, {"scenario_dict": PyDict(d, fresh=False), "name": "scn", "generated": False,
+                           "_e_map": None, "_pe_map": None, "host_num_map": self.host_num_map()},
+                   fresh=False, label="scenario")
 
     def network_obj(self, I):
         netcls = I.repo.cls("nasim.envs.network.Network")
